@@ -203,7 +203,8 @@ class Triaxys(object):
     def freqs(self):
         try:
             f0, df, nf = self.header["f0"], self.header["df"], self.header["nf"]
-            return list(np.arange(f0, f0 + df * nf, df))
+            # Exactly nf frequencies (arange on floats may yield one more)
+            return list(f0 + df * np.arange(nf))
         except Exception as exc:
             raise OSError(f"Not enough info to parse frequencies:\n{exc}")
 
